@@ -21,7 +21,7 @@ META = {
                    'the write barrier saw no in-place write into an argument or a buffer; (b) module buffers/parameters are unchanged; (c) the outputs of B after the history equal '
                    'the baseline (exact identity of the symbolic outputs, z3 on any non-zero difference, replay on real torch with the same history); (d) a digest of every '
                    'module-level / function-attribute object of pytorch_wavelets is unchanged by the call, except that COEFF_CACHE may gain keys - so the state after any call '
-                   'equals the state before it and histories of any length behave like the explored ones; (e) the outputs with inputs requiring grad equal those without. '
+                   'equals the state before it and histories of any length behave like the explored ones; (e) the outputs with inputs requiring grad equal those without; (f) for every pool entry the leaf gradients of a second back-propagation of the same graph (retain_graph) equal those of the first, term by term on the symbolic tape (z3 on any non-zero difference; replay: real torch back-propagated twice). '
                    'THREADS are not explored: the checked non-interference premises (calls write only freshly allocated tensors and read only arguments and immutable shared '
                    'state) imply schedule independence provided torch kernels and dict operations are thread-safe; real interleavings are outside this technique.',
     'bounds': {'added_families': ['extra targets dtf_odd (5x7), dtf_odd2 (3x3), dti_planar (planar real/imag storage), dti_planar_b2, swt_j2, d2_odd, d1_b2', 'same instance after an input of another size or precision (20 sequences)', 'uninitialised-memory atoms (torch.empty / new_empty / empty_like)'],
